@@ -115,3 +115,17 @@ package web
 //@   callsite NewReader[lz4.NewReader] requires payload(r, bytes.Reader) == lastresult(bytes.NewReader, 0)
 //@   callsite ReadFrom requires payload(r, lz4.Reader) == lastresult(lz4.NewReader, 0)
 //@   ensures  result1 == nil ==> calls(ReadFrom) == 1 && result0 == lastresult(Bytes, 0)
+// Compress*: whatever the level, everything given goes through a compressor created for the given sink and level,
+// which is closed (flushed) before success is reported -- there is no path that writes the input as it is.
+//@ func CompressWithZlib
+//@   callsite NewWriterLevel requires w == out && level == compressionLevel
+//@   callsite Write requires p == in && receiver == lastresult(NewWriterLevel, 0)
+//@   ensures  result == nil ==> calls(NewWriterLevel) == 1 && calls(Write) == 1 && calls(Close) == 1
+//@   modifies everything
+//@   preserves statsd.HttpForwarderHandlerV2
+//@ func CompressWithLz4
+//@   callsite NewWriter requires w == out
+//@   callsite Write requires receiver == lastresult(NewWriter, 0)
+//@   ensures  result == nil ==> calls(NewWriter) == 1 && calls(Write) == 1 && calls(Close) == 1
+//@   modifies everything
+//@   preserves statsd.HttpForwarderHandlerV2
